@@ -232,6 +232,10 @@ func (b *trzszBuffer) readLineOnWindows(timeout <-chan time.Time) ([]byte, error
 					bytes := b.readBuf.Bytes()
 					if hasNewline && len(bytes) > 0 && (c == bytes[len(bytes)-1] || preHasCursorHome) {
 						bytes[len(bytes)-1] = c
+						// the re-printed character has been taken: the wrap is over
+						preHasCursorHome = hasCursorHome
+						hasCursorHome = false
+						hasNewline = false
 						continue
 					}
 				}
